@@ -39,7 +39,7 @@ func (c26) Describe() engine.Info {
 			"Oracle progress: exactly one step per party per cycle (a guest write to DIV/LCDC/FF46 in cycle n is seen by that party's tick in cycle n: counter=4, PPU position=1, DMA progress=1), 17,556 cycles between frames handed to the display, 738..740 stereo samples per frame when sound is on. Oracle stop: Run returns having started no frame after the request was visible, the frame in flight completes, Cleanup released the display once and closed both sample channels. Signature = (class, request kind, frame phase bucket / party event kind)." +
 			" A directed prologue produces TIMA overflows caused by the guest DIV/TAC write itself.",
 		Assumptions:    []string{"party progress is read through the verif accessors (timer counter, PPU position, DMA progress, RTC sub-second count)", "audio progress is judged by samples per frame (black box)"},
-		RequiredProbes: []string{"timer_overflow_request_checked", "timer_overflow_caused_by_a_guest_write", "frames_counted", "guest_div_write", "guest_lcdc_on", "guest_dma_start", "cpu_stopped_cycles", "cpu_halted_cycles", "cancel_mid_frame", "cancel_at_done", "close_request", "cancel_before_start", "channels_closed"},
+		RequiredProbes: []string{"audio_clock_checked_while_powered_off", "timer_overflow_request_checked", "timer_overflow_caused_by_a_guest_write", "frames_counted", "guest_div_write", "guest_lcdc_on", "guest_dma_start", "cpu_stopped_cycles", "cpu_halted_cycles", "cancel_mid_frame", "cancel_at_done", "close_request", "cancel_before_start", "channels_closed"},
 		RealComponents: realComponents, StubComponents: stubComponents,
 	}
 }
@@ -50,7 +50,7 @@ func (c26) Generate(r *engine.Rand, index int, tier string) *engine.Scenario {
 		sc.Class = "progress"
 		g := &progGen{r: r, base: lsCodeWRAM, ramOnly: true}
 		g.emitStackSetup()
-		io := []uint8{0x04, 0x40, 0x46, 0x07, 0x05, 0x06}
+		io := []uint8{0x04, 0x40, 0x46, 0x07, 0x05, 0x06, 0x26}
 		if index%8 == 2 {
 			// an overflow caused by the guest's own write: DIV cleared, slowest-but-one rate (the selected
 			// counter bit is high from cycle 32 to 63), TIMA = FF while the bit is high, then a DIV write or
@@ -79,6 +79,8 @@ func (c26) Generate(r *engine.Rand, index int, tier string) *engine.Scenario {
 					if r.Bool() {
 						v = uint8(r.Range(0x80, 0x9f))
 					}
+				case 0x26:
+					v = uint8(r.Intn(2)) << 7 // sound power off / on
 				case 0x07:
 					v = r.Byte() & 7
 					if r.Bool() {
@@ -160,6 +162,7 @@ func (c26) progress(sc *engine.Scenario) *engine.Result {
 	prevOn := m.PPU.VerifOn()
 	prevDMAon, prevDMA := m.OAM.VerifDMA()
 	prevRTC := m.Map.VerifGetRTC().Ticks
+	prevAPU := m.APU.VerifWave().Ticks
 	// reference timer alongside: an overflow must raise the timer request whatever the CPU's
 	// master enable is (IE is 0 in these programs, so nothing is ever dispatched or acknowledged)
 	var rt dmgref.Timer
@@ -310,6 +313,17 @@ func (c26) progress(sc *engine.Scenario) *engine.Result {
 			fail("rtc-step", "RTC sub-second count went %d -> %d in one machine cycle", prevRTC, rt.Ticks)
 		}
 		prevRTC = rt.Ticks
+		// sound unit: four clocks per machine cycle, powered on or off (its counter restarts at 1 once
+		// per emulated second)
+		if at := m.APU.VerifWave().Ticks; true {
+			if !(at == prevAPU+4 || (at < prevAPU && at <= 8)) {
+				fail("audio-step", "the sound unit's clock went %d -> %d in one machine cycle (sound power %v)", prevAPU, at, m.APU.ReadNR52()&0x80 != 0)
+			}
+			if m.APU.ReadNR52()&0x80 == 0 {
+				res.Probe("audio_clock_checked_while_powered_off")
+			}
+			prevAPU = at
+		}
 		if m.CPU.VerifStopped() {
 			res.Probe("cpu_stopped_cycles")
 		}
